@@ -145,10 +145,11 @@ Bookable(t, s) == Len(Members(t)) > 0 /\ \A i \in 1..Len(Members(t)) : MemberFre
 ResLimKeys(r, s) == UNION {{<<"r", o, i, PeriodOf(R(o).limits[i].kind, s)>> : i \in 1..Len(R(o).limits)} : o \in {r} \cup AncR(r)}
 AvailR(r, s) == OnShift(r, s) /\ Used(r, s) < Cap(r) /\ \A k \in ResLimKeys(r, s) : Lim(k) < LimVal(k)
 SlotsNeeded(t, r) == CeilDiv(Need(t, r), Cap(r))
-RECURSIVE KthAvail(_, _, _)      \* index of the k-th available slot of r at or after s; -1 if the horizon ends first
-KthAvail(r, s, k) == IF s >= P.N THEN -1
-                     ELSE IF AvailR(r, s) THEN (IF k <= 1 THEN s ELSE KthAvail(r, s + 1, k - 1))
-                     ELSE KthAvail(r, s + 1, k)
+\* index of the k-th available slot of r at or after s; -1 if the horizon ends first.  Not recursive on purpose:
+\* TLC's context chain makes a recursion of depth ~N quadratic (12 min for one 4 000-event trace, measured)
+KthAvail(r, s, k) == IF s >= P.N \/ k < 1 THEN -1
+                     ELSE LET av == SelectSeq([i \in 1..(P.N - s) |-> s + i - 1], LAMBDA x : AvailR(r, x))
+                          IN  IF Len(av) >= k THEN av[k] ELSE -1
 \* one-time choice between primaries and alternatives ("smart routing"): the candidate set whose FIRST resource would
 \* finish earlier, counting every available slot from the cursor as a whole slot; ties and failures go to the primaries
 EstEnd(t, rs, c) == IF rs = <<>> \/ T(t).effort = 0 THEN -1 ELSE KthAvail(rs[1], c, SlotsNeeded(t, rs[1]))
